@@ -4,6 +4,10 @@ import json, os
 HERE = os.path.dirname(os.path.dirname(os.path.abspath(__file__)))
 
 CHECKS = {
+ 'C17': dict(level='exploration', design='2/C17',
+   technique='bounded-exhaustive enumeration of known_hosts files x queries and authorized_keys option lists x clients on the real lookup code against a reference model written from the OpenSSH file-format rules (plus documented extensions), with ssh-keygen -F as a second implementation',
+   text='Every host pattern list of 1-2 atoms over a 19-atom alphabet (names, wildcards incl. address-only ones, negation, addresses, CIDR, [host]:port, bracketed names) plus hashed forms x 3 markers in 1- and 2-line files is looked up for 51 (host, address, port) queries; the returned trusted/CA/revoked key sets must equal the model (positive-and-not-negative rule, hashed names, port form with fallback to the plain name). ssh-keygen -F must agree on its subset. 19 damaged key fields (incl. well-framed keys with impossible parameters) before/between/after good lines must be skipped in both file types. authorized_keys option lists of 0-3 atoms over 21 option atoms x 4 clients x principal sets must select the same entries with the same option values as the model.',
+   note='numeric/CIDR patterns are compared for the default port only; revoked sets are compared only when something trusted matched.'),
  'C16': dict(level='exploration', design='2/C16',
    technique='exhaustive single-edit enumeration of signatures, certificates and SSHSIG blobs on the real verification code, an exhaustive acceptance grid of hand-built certificates against an independent predicate, and ssh-keygen as second implementation',
    text='Every key type x signature algorithm x 3 messages: the signature verifies; every single-byte xor/delete/insert of the signature blob, message edits, relabelling with every other algorithm name and another key must not verify. Every single-byte edit of user and host certificates from 7 CA key types must fail import or validation. A grid of hand-built ed25519 certificates (type x intended use x validity window touching the clock x principals x wanted principal x critical options and extensions incl. unknown ones) is compared with a predicate from PROTOCOL.certkeys; ssh-keygen -s output is read identically and asyncssh certificates are printed correctly by ssh-keygen -L. SSHSIG: 13 allowed-signers option forms x clock x principal, message/namespace/CA binding, every single-byte edit, ssh-keygen -Y both ways.',
